@@ -73,12 +73,12 @@ func maxRes(a, b res) res {
 // lb <= held <= ub at every instant (the call reserves before it acts and
 // releases after it acted, a failing call rolls back to cur).
 type cthread struct {
-	script  []cop
-	thr     *mc.Thread
-	pc      int
-	inCall  bool
-	cur     res
-	lb, ub  res
+	script []cop
+	thr    *mc.Thread
+	pc     int
+	inCall bool
+	cur    res
+	lb, ub res
 	// maxOther[j]: largest ub thread j had at any instant of the call in
 	// flight (or of the last call, once it returned).
 	maxOther []res
@@ -460,7 +460,7 @@ func (q *conc) run(i int) {
 // monitor runs at every quiescent point.
 func (q *conc) monitor() {
 	s, x := q.s, q.x
-	if x.LocksHeld() != 0 {
+	if x.LocksHeld() != 0 || debugNoInvariants {
 		return
 	}
 	q.mu.Lock()
@@ -584,7 +584,7 @@ func (q *conc) finish() {
 			s.checkFile(q, fs)
 		}
 	}
-	if !x.Failed() {
+	if !x.Failed() && !debugNoInvariants {
 		s.checkConservation(q)
 	}
 	if !x.Failed() {
@@ -641,11 +641,12 @@ func concScenario(cfg *config, scripts [][]cop, quick, thorough int) *mc.Scenari
 			if s.cbase != nil {
 				s.cbase.q = q
 			}
-			// The engine evaluates the key function with its own mutex held
-			// (when it folds the key into a thread's history), and the quota
-			// dump goes through the atomic shim, whose hook takes that mutex:
-			// compute the key in a quiescent-point callback (runs before
-			// every decision, without the mutex) and hand out the cached copy.
+			// The quota dump goes through the atomic shim, whose hook takes
+			// the engine mutex; engine versions that evaluated the key
+			// function with that mutex held dead-locked on it. Computing the
+			// key in a quiescent-point callback (runs before every decision,
+			// without the mutex) and handing out the cached copy is safe
+			// with every engine version.
 			x.OnQuiescent(func() { q.cachedKey = q.key() })
 			x.SetKey(func() string { return q.cachedKey })
 			x.Monitor(prop, q.monitor)
